@@ -12,4 +12,5 @@ while [ $# -gt 0 ]; do
     *) args+=("$1"); shift;;
   esac
 done
-exec "$ROOT/.bin/c20" "${args[@]}"
+BIN="$ROOT/.bin/c20"; [ -n "${VERIF_REPO:-}" ] && BIN="$ROOT/.bin/alt/c20"
+exec "$BIN" "${args[@]}"
